@@ -214,6 +214,32 @@ func runC19(r *Run) {
 			}
 		}
 	}
+	// every path of ReadValue assigns both fields: the decoded type is a function of v alone, whatever
+	// the receiver held before (counted under C19.read: two more obligations)
+	{
+		need := map[string]uint64{"M": 1, "C": 2}
+		rep := map[*ssa.Return]bool{}
+		q := &PathQuery{P: p, Fn: readFn}
+		q.Step = func(in ssa.Instruction, deferred bool, st uint64, c *PathCtx) (uint64, bool) {
+			if s, ok := in.(*ssa.Store); ok {
+				if fv := fieldOfAddr(s.Addr); fv != nil {
+					st |= need[srcName(fv)]
+				}
+			}
+			return st, false
+		}
+		okAll := true
+		q.AtReturn = func(ret *ssa.Return, st uint64, c *PathCtx) {
+			if st&3 != 3 && !rep[ret] {
+				rep[ret] = true
+				okAll = false
+				rr.ViolationPath(readFn, instrPos(ret), "return without assigning Method and Class", "on this path ReadValue leaves (part of) the receiver as it was: the decoded type depends on what the MessageType held before, not only on the wire value", c.Witness(readFn, ret))
+			}
+		}
+		q.Run()
+		rr.Instance("ReadValue.total", true, nil)
+		rr.Obligation(okAll && !q.Exhausted, false)
+	}
 	rr.Done()
 	inv.Done()
 }
